@@ -190,6 +190,8 @@ def run(tier, seed):
     cs = carriers.conforming("quick", cap=200 if tier == "quick" else 1500)
     vs = carriers.violating("quick", per_op=2 if tier == "quick" else 3)
     files = [(c["fname"], c["text"]) for c in cs] + [(v["fname"], v["text"]) for v in vs] + dense_family()
+    from .. import corpus
+    files += list(corpus.samples())          # the sample inputs of norminette's own tests: diagnostics the model never provokes
     res = explore.pmap(check_file, files, chunksize=8)
     sigs = set()
     judged = 0
